@@ -192,7 +192,7 @@ def opWrite (cfg : Config) (tbl : Table) (args : List String) : String :=
       let env := mkEnv tbl
       let (st0, r0) := Writer.init enc ver
       let first := showResult r0 ++ "/" ++ showWState st0
-      if r0 != .ok then s!"R {first} out={encBytes st0.out}" else
+      if r0 != .ok then s!"R {showResult r0}/0//~ out={encBytes st0.out}" else
       let rec go (st : Writer.St) (cs : List Writer.Call) (acc : List String) : String :=
         match cs with
         | [] => " ".intercalate (["R"] ++ acc.reverse ++ ["out=" ++ encBytes st.out])
